@@ -456,6 +456,31 @@ def run_container(col):
                     bad.append((k, c, j))
     col.add("C20.O5", "MeshContainer merge then append", "after merging, the container's own point array is the merged array of its meshes; a following append keeps every cell corner of every mesh",
             okm and not bad, "mesh/_container.py merge_duplicate_points / append: shared %s, moved corners (mesh, cell, node) %s" % (okm, bad[:4]))
+    # export of a container whose meshes of one cell type are not adjacent (quad, triangle, quad): every cell held in memory is handed to meshio
+    store = Store()
+    it.externals.update(meshio_summary(store))
+    for hist in ("constructor", "append"):
+        for combined in (True, False):
+            def chk(hist=hist, combined=combined):
+                if hist == "constructor":
+                    mci = it.call(MC, [[a, b, c3]], {})
+                else:
+                    mci = it.call(MC, [[a, b]], {})
+                    it.call_method(mci, "append", [c3])
+                mio = it.call_method(mci, "as_meshio", [], dict(combined=combined))
+                held = {}
+                for m in it.getattr(mci, "meshes"):
+                    cn = npmodel.to_int_array(np.asarray(it.getattr(m, "cells")))
+                    held.setdefault(it.getattr(m, "cell_type"), []).extend(tuple(int(x) for x in r) for r in cn)
+                got = {}
+                for blk in mio.cells:
+                    got.setdefault(blk.type, []).extend(tuple(int(x) for x in r) for r in npmodel.to_int_array(np.asarray(blk.data)))
+                okp = mio.points is it.getattr(mci, "points") or np.asarray(mio.points).shape == np.asarray(it.getattr(mci, "points")).shape
+                return okp and {k: sorted(v) for k, v in held.items()} == {k: sorted(v) for k, v in got.items()}, \
+                    "mesh/_container.py MeshContainer.as_meshio(combined=%s): cells held %s, cells exported %s" % (
+                        combined, {k: len(v) for k, v in held.items()}, {k: len(v) for k, v in got.items()})
+            col.check("C20.O5", "MeshContainer[quad, triangle, quad via %s].as_meshio(combined=%s)" % (hist, combined),
+                      "the exported meshio object holds exactly the cells of all contained meshes (per cell type, any order of the meshes)", chk)
     mc = it.call(MC, [[a]], {})
     it.call_method(mc, "append", [b])
     cp = it.getattr(mc, "points")
